@@ -176,6 +176,19 @@ static void dist_ops(World &w, const Op &o, int ri) {
     m.values.assign(vals.begin(), vals.begin() + (size_t)nb * nb);
     if (hetero) m.kind |= HWLOC_DISTANCES_KIND_HETEROGENEOUS_TYPES; else m.kind &= ~(unsigned long)HWLOC_DISTANCES_KIND_HETEROGENEOUS_TYPES;
     size_t nobj_before = R.last.objs.size();
+    // interleaved handles: a second structure is created after this one and committed before it, so that the list order (commit time)
+    // differs from the id order (creation time)
+    if (o.u("cf") % 5 == 1) {
+      hwloc_obj_t p0 = sel_type(R, g.next(), HWLOC_OBJ_PU), p1 = sel_type(R, g.next(), HWLOC_OBJ_PU);
+      if (p0 && p1 && p0 != p1) {
+        hwloc_distances_add_handle_t hx = hwloc_distances_add_create(t, "hwsim-interleaved", HWLOC_DISTANCES_KIND_FROM_USER | HWLOC_DISTANCES_KIND_VALUE_BANDWIDTH, 0);
+        hwloc_obj_t xo[2] = {p0, p1}; hwloc_uint64_t xv[4] = {0, 5 + g.below(90), 5 + g.below(90), 0};
+        if (!hx || hwloc_distances_add_values(t, hx, 2, xo, xv, 0) || hwloc_distances_add_commit(t, hx, 0)) viol0(w, own, "dist.valid_refused", "valid two-PU structure created while another handle is open was refused (errno %d)", errno);
+        DistModel mx; mx.has_name = true; mx.name = "hwsim-interleaved"; mx.kind = HWLOC_DISTANCES_KIND_FROM_USER | HWLOC_DISTANCES_KIND_VALUE_BANDWIDTH;
+        for (auto x : xo) { mx.objs.push_back(x->gp_index); mx.types.push_back((int)x->type); } mx.values.assign(xv, xv + 4);
+        R.user_dists.push_back(mx); r.count("probe.dist_added"); r.count("probe.dist_handles_interleaved"); r.ev("dist_add interleaved structure committed first");
+      }
+    }
     errno = 0; rc = hwloc_distances_add_commit(t, h, mflags); e = errno;
     r.ev("dist_add commit mf=0x%lx -> %d e=%d", mflags, rc, rc ? e : 0);
     if (mflags & ~3UL) { r.count("probe.dist_add_rejected"); if (rc != -1 || e != EINVAL) viol0(w, own, "dist.invalid_accepted", "distances_add_commit(flags 0x%lx) returned %d errno %d, expected -1/EINVAL", mflags, rc, e); return; }
